@@ -2,21 +2,21 @@ import RtenVerif.Lemmas.SymCanon
 import RtenVerif.Lemmas.SymRcf
 
 /-! `simplify_canonical` / `simplify` preserve evaluation; `is_positive` (C11). -/
+set_option linter.unusedSimpArgs false
 namespace RtenVerif.Sym
 
 /-- Side conditions of the two rewrite arms that are not valid for all integers, stated at
 the node where `simplify_canonical` applies them (`e` is the canonicalised expression):
 
-* `Broadcast(a, b)`: the operands' values are inside the constructor's domain *and at least
-  1* — both `≥ 1` and equal, or one of them `1`;
+* `Broadcast(a, b)`: the operands' values are inside the constructor's domain — equal, or
+  one of them `1`;
 * `DivCeil(a, b)` whose simplified dividend is again a `DivCeil(_, c1)`: both divisors are
   positive — the condition in the code comment ("if b > 0 and c > 0"), which the code only
   tests when both divisors are constants. -/
 def Guards (A : Arith) (σ : Env) : SymExpr → Prop
   | .bin o a b =>
     Guards A σ a ∧ Guards A σ b ∧
-    (o = .broadcast → ∀ x y, ev σ a = .ok x → ev σ b = .ok y →
-      1 ≤ x ∧ 1 ≤ y ∧ (x = y ∨ x = 1 ∨ y = 1)) ∧
+    (o = .broadcast → ∀ x y, ev σ a = .ok x → ev σ b = .ok y → (x = y ∨ x = 1 ∨ y = 1)) ∧
     (o = .divCeil → ∀ l' c1 r, simpC A a = some (.bin .divCeil l' c1) → simpC A b = some r →
       ∀ v1 v2, ev σ c1 = .ok v1 → ev σ r = .ok v2 → 0 < v1 ∧ 0 < v2)
   | .neg a => Guards A σ a
@@ -105,7 +105,7 @@ theorem isPositive_sound (σ : Env) :
     obtain ⟨hda, hdb, hdB⟩ := hd
     rw [ev_bin_ok'] at hv
     obtain ⟨x, y, hx, hy, h0, rfl⟩ := hv
-    cases o <;> simp only [isPositive, Bool.and_eq_true, Bool.or_eq_true] at hp <;> simp only [opF]
+    cases o <;> simp only [isPositive, Bool.and_eq_true, Bool.or_eq_true] at hp <;> simp only [opF, bcastI]
     · exact Int.add_nonneg (iha x hda hp.1 hx) (ihb y hdb hp.2 hy)
     · simp at hp
     · exact Int.mul_nonneg (iha x hda hp.1 hx) (ihb y hdb hp.2 hy)
@@ -170,7 +170,7 @@ def guardsB (A : Arith) (σ : Env) : SymExpr → Bool
     guardsB A σ a && guardsB A σ b &&
       (o != .broadcast ||
         match ev σ a, ev σ b with
-        | .ok x, .ok y => decide (1 ≤ x) && decide (1 ≤ y) && (x == y || x == 1 || y == 1)
+        | .ok x, .ok y => (x == y || x == 1 || y == 1)
         | _, _ => true) &&
       (o != .divCeil ||
         match simpC A a, simpC A b with
@@ -198,8 +198,8 @@ theorem guardsB_sound (A : Arith) (σ : Env) : ∀ e : SymExpr, guardsB A σ e =
       rcases hB with hB | hB
       · simp at hB
       · rw [hx, hy] at hB
-        simp only [Bool.and_eq_true, Bool.or_eq_true, decide_eq_true_eq, beq_iff_eq] at hB
-        exact ⟨hB.1.1, hB.1.2, by rcases hB.2 with (h | h) | h <;> simp [h]⟩
+        simp only [Bool.or_eq_true, beq_iff_eq] at hB
+        rcases hB with (h | h) | h <;> simp [h]
     · intro ho l' c1 r hl hr v1 v2 hv1 hv2
       subst ho
       rcases hC with hC | hC
